@@ -1088,7 +1088,8 @@ def check_C09(tier, seed):
         longn = 20000 if tier == "quick" else 100000
         extra = []
         runs, reqs = trace_part(out, "C09", tier, progs, fr.ws, fr.batches, seed,
-                                sizes(tier, 40, 80), 60, lambda evs: [c09_reason(evs, 10 ** 9, False)],
+                                40 if tier == "quick" else max(10, min(80, 16000 // max(1, len(progs)))),
+                                60, lambda evs: [c09_reason(evs, 10 ** 9, False)],
                                 "termination/progress/panic-freedom",
                                 extra_inputs=[[c] * longn for c in (97, 120)] + [[120, 97] * 500])
         n_long = 0
